@@ -114,28 +114,34 @@ Qed.
 
 (* ---------- one event through the store operator ---------- *)
 
-Definition btw3 (es' es : list event) (s : store) : Prop :=
-  btw (wlog_of es') (wlog_of es) (wlog s) /\ btw (recs_of es') (recs_of es) (recs s)
-  /\ btw (proj_of es') (proj_of es) (proj s).
+(* the view of sync projector j *)
+Definition projv (s : store) (j : N) : n2map N := inner3 (proj s) j.
 
-Definition complete (es : list event) (s : store) : Prop :=
-  eq2 (wlog s) (wlog_of es) /\ eq2 (recs s) (recs_of es) /\ eq2 (proj s) (proj_of es).
+Definition btw3 (np : N) (es' es : list event) (s : store) : Prop :=
+  btw (wlog_of es') (wlog_of es) (wlog s) /\ btw (recs_of es') (recs_of es) (recs s)
+  /\ forall j, j < np -> btw (proj_of es') (proj_of es) (projv s j).
+
+Definition complete (np : N) (es : list event) (s : store) : Prop :=
+  eq2 (wlog s) (wlog_of es) /\ eq2 (recs s) (recs_of es)
+  /\ forall j, j < np -> eq2 (projv s j) (proj_of es).
 
 (* s' differs from s only by entries that took the value the log es gives them *)
 Definition adv3 (es : list event) (s s' : store) : Prop :=
   plog s' = plog s /\ adv (wlog_of es) (wlog s) (wlog s') /\ adv (recs_of es) (recs s) (recs s')
-  /\ adv (proj_of es) (proj s) (proj s').
+  /\ forall j, adv (proj_of es) (projv s j) (projv s' j).
 
 Lemma adv3_refl es s : adv3 es s s.
-Proof. repeat split; apply adv_refl. Qed.
+Proof. repeat split; try intros j; apply adv_refl. Qed.
 Lemma adv3_trans es s s' s'' : adv3 es s s' -> adv3 es s' s'' -> adv3 es s s''.
 Proof.
-  intros (P & W & R & J) (P' & W' & R' & J'). repeat split; [congruence| | |]; eapply adv_trans; eassumption.
+  intros (P & W & R & J) (P' & W' & R' & J'). repeat split; [congruence| | |intros j]; eapply adv_trans; eauto.
 Qed.
-Lemma btw3_adv3 es' es s s' : btw3 es' es s -> adv3 es s s' -> btw3 es' es s'.
-Proof. intros (W & R & J) (_ & W' & R' & J'). repeat split; eapply btw_adv; eassumption. Qed.
-Lemma complete_btw3 es' es s : complete es s -> btw3 es' es s.
-Proof. intros (W & R & J). repeat split; apply btw_of_eq2_r; assumption. Qed.
+Lemma btw3_adv3 np es' es s s' : btw3 np es' es s -> adv3 es s s' -> btw3 np es' es s'.
+Proof.
+  intros (W & R & J) (_ & W' & R' & J'). repeat split; [| |intros j Hj]; eapply btw_adv; eauto.
+Qed.
+Lemma complete_btw3 np es' es s : complete np es s -> btw3 np es' es s.
+Proof. intros (W & R & J). repeat split; [| |intros j Hj]; apply btw_of_eq2_r; auto. Qed.
 
 Lemma put2_complete {A} (a m : n2map A) x y v :
   btw a (put2 a x y v) m -> get2 m x y = Some v -> eq2 m (put2 a x y v).
@@ -161,46 +167,86 @@ Proof.
   rewrite N.eqb_refl, F. reflexivity.
 Qed.
 
-Lemma store_op_sound tl plan reapply es e s l :
-  wf es -> ok_event es e -> btw3 es (es ++ [e]) s ->
-  forall s' l' ok, store_op tl plan reapply e s l = (s', l', ok) ->
-  adv3 (es ++ [e]) s s' /\ (ok = true -> complete (es ++ [e]) s').
+(* flushing the sync projectors *)
+Lemma w_proj1_adv plan j es e s l s' l' ok :
+  w_proj1 plan j e s l = (s', l', ok) ->
+  plog s' = plog s /\ wlog s' = wlog s /\ recs s' = recs s
+  /\ (forall j', adv (proj_of (es ++ [e])) (projv s j') (projv s' j'))
+  /\ (ok = true -> get2 (projv s' j) (e_ws e) (e_woff e) = Some (e_tag e)).
+Proof.
+  unfold w_proj1. destruct (issue plan TView opPutBatch l) as [f l1].
+  destruct (wr f false false) as [app ok1] eqn:Ew. intros H. inversion H; subst s' l' ok. clear H.
+  destruct app.
+  - cbn [plog wlog recs proj set_proj]. repeat split.
+    + intros j'. unfold projv. cbn [proj set_proj]. destruct (N.eq_dec j j') as [<-|Hne].
+      * rewrite inner3_put3_eq. apply adv_put. rewrite proj_of_snoc. apply get2_put2_eq.
+      * rewrite inner3_put3_neq by exact Hne. apply adv_refl.
+    + intros _. unfold projv. cbn [proj set_proj]. rewrite inner3_put3_eq. apply get2_put2_eq.
+  - repeat split; [intros j'; apply adv_refl|]. intros ->. apply wr_ok_app in Ew. discriminate.
+Qed.
+
+Lemma w_projs_adv early plan es e : forall ord s l last s' l' ok,
+  w_projs early plan ord e s l last = (s', l', ok) ->
+  plog s' = plog s /\ wlog s' = wlog s /\ recs s' = recs s
+  /\ (forall j', adv (proj_of (es ++ [e])) (projv s j') (projv s' j'))
+  /\ (early = true -> ok = true ->
+      forall j, In j ord -> get2 (projv s' j) (e_ws e) (e_woff e) = Some (e_tag e)).
+Proof.
+  induction ord as [|j r IH]; intros s l last s' l' ok H; cbn [w_projs] in H.
+  - inversion H; subst. repeat split; [intros j'; apply adv_refl | intros _ _ j []].
+  - destruct (w_proj1 plan j e s l) as [[s1 l1] ok1] eqn:E1.
+    destruct (w_proj1_adv plan j es e s l s1 l1 ok1 E1) as (P1 & W1 & R1 & A1 & D1).
+    destruct (negb ok1 && early) eqn:Estop.
+    + inversion H; subst s' l' ok. repeat split; try assumption. intros _ F; discriminate F.
+    + destruct (IH s1 l1 ok1 s' l' ok H) as (P2 & W2 & R2 & A2 & D2).
+      repeat split; try congruence.
+      * intros j'. eapply adv_trans; [apply A1 | apply A2].
+      * intros He Hok j0 [<-|Hin]; [|apply D2; assumption].
+        subst early. rewrite andb_true_r in Estop. apply negb_false_iff in Estop.
+        assert (HB : get2 (proj_of (es ++ [e])) (e_ws e) (e_woff e) = Some (e_tag e))
+          by (rewrite proj_of_snoc; apply get2_put2_eq).
+        rewrite <- HB. eapply adv_sticky; [apply A2|]. rewrite HB. apply D1; exact Estop.
+Qed.
+
+Lemma store_op_sound k ord np plan reapply es e s l :
+  wf es -> ok_event es e -> btw3 np es (es ++ [e]) s ->
+  forall s' l' ok, store_op k ord plan reapply e s l = (s', l', ok) ->
+  adv3 (es ++ [e]) s s'
+  /\ (k_early k = true -> ord_ok np ord -> ok = true -> complete np (es ++ [e]) s').
 Proof.
   intros Hw Ho (Bw & Br & Bj) s' l' ok H. unfold store_op in H.
   destruct (results_vals es e (recs s) Ho Br (e_cuds e) (incl_refl _)) as (rs & Hr & Hv & Hm).
   rewrite Hr in H.
   (* records *)
   assert (Hrec : forall s1 l1 ok1,
-    (if recs_each tl reapply then w_recs_each plan (e_ws e) rs s l else w_recs_batch plan (e_ws e) rs s l) = (s1, l1, ok1) ->
+    (if recs_each (k_tl k) reapply then w_recs_each plan (e_ws e) rs s l else w_recs_batch plan (e_ws e) rs s l) = (s1, l1, ok1) ->
     same_others s s1 /\ adv (recs_of (es ++ [e])) (recs s) (recs s1)
     /\ (ok1 = true -> Forall (fun x => get2 (recs s1) (e_ws e) (rid x) = get2 (recs_of (es ++ [e])) (e_ws e) (rid x)) rs)).
-  { intros s1 l1 ok1 H1. destruct (recs_each tl reapply).
+  { intros s1 l1 ok1 H1. destruct (recs_each (k_tl k) reapply).
     - eapply w_recs_each_adv; eassumption.
     - eapply w_recs_batch_adv; eassumption. }
-  destruct (if recs_each tl reapply then _ else _) as [[s1 l1] ok1] eqn:E1.
+  destruct (if recs_each (k_tl k) reapply then _ else _) as [[s1 l1] ok1] eqn:E1.
   destruct (Hrec s1 l1 ok1 eq_refl) as ((P1 & W1 & J1) & A1 & D1). clear Hrec.
   assert (Adv1 : adv3 (es ++ [e]) s s1).
-  { repeat split; [exact P1 | rewrite W1; apply adv_refl | exact A1 | rewrite J1; apply adv_refl]. }
+  { repeat split; [exact P1 | rewrite W1; apply adv_refl | exact A1 | intros j; unfold projv; rewrite J1; apply adv_refl]. }
   destruct ok1; cbn [negb] in H.
   2:{ inversion H; subst. split; [exact Adv1 | discriminate]. }
   (* the fork *)
-  unfold w_proj in H. destruct (issue plan TView opPutBatch l1) as [fv l2].
-  destruct (wr fv false false) as [appv okv] eqn:Ev.
-  set (s2 := if appv then set_proj s1 (put2 (proj s1) (e_ws e) (e_woff e) (e_tag e)) else s1) in H.
-  unfold w_wlog in H. destruct (issue plan TWLog (op_of (wlog_cond tl reapply)) l2) as [fw l3].
-  destruct (wr fw (wlog_cond tl reapply) (is_some (get2 (wlog s2) (e_ws e) (e_woff e)))) as [appw okw] eqn:Ew.
-  inversion H; subst s' l' ok. clear H.
+  destruct (w_projs (k_early k) plan ord e s1 l1 true) as [[s2 l2] okv] eqn:Ev.
+  destruct (w_projs_adv (k_early k) plan es e ord s1 l1 true s2 l2 okv Ev) as (P2 & W2 & R2 & A2 & D2).
   assert (Adv2 : adv3 (es ++ [e]) s1 s2).
-  { subst s2. destruct appv; [|apply adv3_refl]. cbn. repeat split; try apply adv_refl.
-    apply adv_put. rewrite proj_of_snoc. apply get2_put2_eq. }
+  { repeat split; [exact P2 | rewrite W2; apply adv_refl | rewrite R2; apply adv_refl | exact A2]. }
+  unfold w_wlog in H. destruct (issue plan TWLog (op_of (wlog_cond (k_tl k) reapply)) l2) as [fw l3].
+  destruct (wr fw (wlog_cond (k_tl k) reapply) (is_some (get2 (wlog s2) (e_ws e) (e_woff e)))) as [appw okw] eqn:Ew.
+  inversion H; subst s' l' ok. clear H.
   set (s3 := if appw then set_wlog s2 (put2 (wlog s2) (e_ws e) (e_woff e) e) else s2).
   assert (Adv3 : adv3 (es ++ [e]) s2 s3).
-  { subst s3. destruct appw; [|apply adv3_refl]. cbn. repeat split; try apply adv_refl.
+  { subst s3. destruct appw; [|apply adv3_refl]. cbn. repeat split; try (intros j); try apply adv_refl.
     apply adv_put. rewrite wlog_of_snoc. apply get2_put2_eq. }
   split; [eapply adv3_trans; [exact Adv1|]; eapply adv3_trans; eassumption|].
-  intros Hok. apply andb_prop in Hok. destruct Hok as [-> ->].
-  apply wr_ok_app in Ev, Ew. subst appv appw.
-  assert (B3 : btw3 es (es ++ [e]) s3).
+  intros He Hord Hok. apply andb_prop in Hok. destruct Hok as [-> ->].
+  apply wr_ok_app in Ew. subst appw.
+  assert (B3 : btw3 np es (es ++ [e]) s3).
   { eapply btw3_adv3; [|exact Adv3]. eapply btw3_adv3; [|exact Adv2]. eapply btw3_adv3; [|exact Adv1].
     repeat split; assumption. }
   destruct B3 as (Bw3 & Br3 & Bj3). repeat split.
@@ -209,12 +255,10 @@ Proof.
     assert (Hin' : In (cud_id c) (map rid rs)) by (rewrite Hm; apply in_map; exact Hin).
     apply in_map_iff in Hin'. destruct Hin' as (x & Hx & Hxin).
     specialize (D1 eq_refl). rewrite Forall_forall in D1. specialize (D1 x Hxin). rewrite Hx in D1.
-    destruct Adv2 as (_ & _ & R2 & _). destruct Adv3 as (_ & _ & R3 & _).
-    eapply adv_sticky; [exact R3|]. eapply adv_sticky; [exact R2|]. exact D1.
-  - rewrite proj_of_snoc in *. apply put2_complete; [exact Bj3|].
-    destruct Adv3 as (_ & _ & _ & J3).
-    assert (E2 : get2 (proj s2) (e_ws e) (e_woff e) = Some (e_tag e)) by (subst s2; cbn; apply get2_put2_eq).
-    rewrite (adv_sticky _ _ _ _ _ J3); rewrite ?E2, proj_of_snoc, get2_put2_eq; reflexivity.
+    destruct Adv2 as (_ & _ & R2' & _). destruct Adv3 as (_ & _ & R3 & _).
+    eapply adv_sticky; [exact R3|]. eapply adv_sticky; [exact R2'|]. exact D1.
+  - intros j Hj. specialize (Bj3 j Hj). rewrite proj_of_snoc in *. apply put2_complete; [exact Bj3|].
+    subst s3. cbn [projv proj set_wlog]. apply (D2 He eq_refl j). apply Hord. exact Hj.
 Qed.
 
 (* ---------- recovery ---------- *)
@@ -222,23 +266,24 @@ Qed.
 Lemma btw_same {A} (a m : n2map A) : btw a a m -> eq2 m a.
 Proof. intros H x y. destruct (H x y); assumption. Qed.
 
-Lemma recover_sound tl plan s l es :
-  plog s = plog_of es -> wf es -> btw3 (removelast es) es s ->
-  forall s' l' mp, recover tl plan s l = (s', l', mp) ->
-  adv3 es s s' /\ (forall p, mp = Some p -> complete es s' /\ p = scan_of es).
+Lemma recover_sound k ord np plan s l es :
+  plog s = plog_of es -> wf es -> btw3 np (removelast es) es s ->
+  forall s' l' mp, recover k ord plan s l = (s', l', mp) ->
+  adv3 es s s'
+  /\ (forall p, mp = Some p -> p = scan_of es /\ (k_early k = true -> ord_ok np ord -> complete np es s')).
 Proof.
   intros Hp Hw Hb s' l' mp H. unfold recover in H. rewrite Hp in H. unfold plog_of in H.
   rewrite map_snd_index_from in H. fold (plog_of es) in H. fold (scan_of es) in H.
   destruct (snoc_cases es) as [->|(es' & e & ->)].
   - cbn in H. inversion H; subst. split; [apply adv3_refl|].
-    intros p Hq. inversion Hq; subst. split; [|reflexivity].
-    destruct Hb as (W & R & J). repeat split; apply btw_same; assumption.
+    intros p Hq. inversion Hq; subst. split; [reflexivity|]. intros _ _.
+    destruct Hb as (W & R & J). repeat split; [| |intros j Hj]; apply btw_same; auto.
   - rewrite last_opt_snoc in H. rewrite removelast_last in Hb.
     apply wf_inv in Hw. destruct Hw as [Hw Ho].
-    destruct (store_op tl plan true e s l) as [[s1 l1] ok] eqn:E. inversion H; subst. clear H.
-    destruct (store_op_sound tl plan true es' e s l Hw Ho Hb s' l' ok E) as (Ha & Hc).
+    destruct (store_op k ord plan true e s l) as [[s1 l1] ok] eqn:E. inversion H; subst. clear H.
+    destruct (store_op_sound k ord np plan true es' e s l Hw Ho Hb s' l' ok E) as (Ha & Hc).
     split; [exact Ha|]. intros p Hq. destruct ok; [|discriminate]. inversion Hq; subst.
-    split; [apply Hc; reflexivity | reflexivity].
+    split; [reflexivity|]. intros He Hord. apply Hc; auto.
 Qed.
 
 (* ---------- the event built for a valid command ---------- *)
@@ -322,10 +367,10 @@ Proof.
 Qed.
 
 Lemma build_ok es s c tag :
-  wf es -> complete es s -> valid_cmd s c = true ->
+  wf es -> eq2 (recs s) (recs_of es) -> valid_cmd s c = true ->
   ok_event es (build_event s (scan_of es) tag c).
 Proof.
-  intros Hw (_ & Hr & _) Hv. apply valid_cmd_parts in Hv. destruct Hv as (_ & _ & _ & NDu & Hex).
+  intros Hw Hr Hv. apply valid_cmd_parts in Hv. destruct Hv as (_ & _ & _ & NDu & Hex).
   set (n := nextID (ws_of (scan_of es) (c_ws c))).
   assert (Hlt : forall id, In id (upd_ids (c_ops c)) -> id < n).
   { intros id Hin. apply (recs_bound es Hw). rewrite <- Hr. apply Hex; exact Hin. }
@@ -371,23 +416,23 @@ Qed.
 (* the PLog is the list es at offsets 1..n; the other stores lie between what es without its
    last event and what es stand for; when the partition state is present they are exactly what
    es stands for and the state is what a scan of the PLog gives *)
-Definition InvW (es : list event) (st : state) : Prop :=
-  plog (sto st) = plog_of es /\ wf es /\ btw3 (removelast es) es (sto st)
-  /\ forall p, mem st = Some p -> complete es (sto st) /\ p = scan_of es.
+Definition InvW (np : N) (es : list event) (st : state) : Prop :=
+  plog (sto st) = plog_of es /\ wf es /\ btw3 np (removelast es) es (sto st)
+  /\ forall p, mem st = Some p -> complete np es (sto st) /\ p = scan_of es.
 
-Definition Inv (st : state) : Prop := exists es, InvW es st.
+Definition Inv (np : N) (st : state) : Prop := exists es, InvW np es st.
 
-Lemma InvW_events es st : InvW es st -> events st = es.
+Lemma InvW_events np es st : InvW np es st -> events st = es.
 Proof. intros (Hp & _). unfold events. rewrite Hp. apply map_snd_index_from. Qed.
 
-Lemma Inv0 : Inv state0.
+Lemma Inv0 np : Inv np state0.
 Proof.
   exists []. split; [reflexivity|]. split; [constructor|]. split.
-  - repeat split; intros x y; left; reflexivity.
+  - repeat split; [| |intros j Hj]; intros x y; left; reflexivity.
   - intros p H. discriminate.
 Qed.
 
-Lemma InvW_drop es st : InvW es st -> InvW es (mkState (sto st) None).
+Lemma InvW_drop np es st : InvW np es st -> InvW np es (mkState (sto st) None).
 Proof.
   intros (Hp & Hw & Hb & _). split; [exact Hp|]. split; [exact Hw|]. split; [exact Hb|].
   intros p H. discriminate.
@@ -404,8 +449,8 @@ Proof.
 Qed.
 
 (* a WLog row present in a state satisfying the invariant is the row of the log *)
-Lemma InvW_wlog_entry es st ws w x :
-  InvW es st -> get2 (wlog (sto st)) ws w = Some x -> get2 (wlog_of es) ws w = Some x.
+Lemma InvW_wlog_entry np es st ws w x :
+  InvW np es st -> get2 (wlog (sto st)) ws w = Some x -> get2 (wlog_of es) ws w = Some x.
 Proof.
   intros (_ & Hw & (Bw & _) & _) Hg. destruct (Bw ws w) as [E|E]; [|congruence].
   destruct (snoc_cases es) as [->|(es' & e & ->)]; [rewrite Hg in E; discriminate E|].
@@ -470,28 +515,31 @@ Lemma adv_wlog_kept b s s' :
   adv b (wlog s) (wlog s') -> wlog_kept s s'.
 Proof. intros Hb Ha ws w x Hg. destruct (Ha ws w) as [E|E]; rewrite E; [apply Hb|]; exact Hg. Qed.
 
-Lemma process_spec fx tl tag c plan st st' o es :
-  InvW es st -> process fx tl tag c plan st = (st', o) ->
+Lemma process_spec k ord np tag c plan st st' o es :
+  k_early k = true -> ord_ok np ord ->
+  InvW np es st -> process k ord tag c plan st = (st', o) ->
   wlog_kept (sto st) (sto st') /\
-  ((o_written o = false /\ InvW es st' /\ (forall w ids, o_reply o <> ROk w ids))
-   \/ (o_written o = true /\ exists e, InvW (es ++ [e]) st' /\ e_tag e = tag
+  ((o_written o = false /\ InvW np es st' /\ (forall w ids, o_reply o <> ROk w ids))
+   \/ (o_written o = true /\ exists e, InvW np (es ++ [e]) st' /\ e_tag e = tag
          /\ event_matches c e = true /\ reply_fits o e)).
 Proof.
-  intros HI H. pose proof HI as (Hp & Hw & Hb & Hm). unfold process in H.
+  intros He Hord HI H. pose proof HI as (Hp & Hw & Hb & Hm). unfold process in H.
   (* recovery, if the partition state is absent *)
   assert (Hrec : exists s0 l0 mp,
-    (match mem st with Some p => (sto st, [], Some p) | None => recover tl plan (sto st) [] end) = (s0, l0, mp)
-    /\ adv3 es (sto st) s0 /\ (forall p, mp = Some p -> complete es s0 /\ p = scan_of es)).
+    (match mem st with Some p => (sto st, [], Some p) | None => recover k ord plan (sto st) [] end) = (s0, l0, mp)
+    /\ adv3 es (sto st) s0 /\ (forall p, mp = Some p -> complete np es s0 /\ p = scan_of es)).
   { destruct (mem st) as [p|] eqn:Em.
     - exists (sto st), [], (Some p). split; [reflexivity|]. split; [apply adv3_refl|].
       intros p' E. inversion E; subst. apply Hm. reflexivity.
-    - destruct (recover tl plan (sto st) []) as [[s0 l0] mp] eqn:Er. exists s0, l0, mp.
-      split; [reflexivity|]. eapply recover_sound; eassumption. }
+    - destruct (recover k ord plan (sto st) []) as [[s0 l0] mp] eqn:Er. exists s0, l0, mp.
+      split; [reflexivity|].
+      destruct (recover_sound k ord np plan (sto st) [] es Hp Hw Hb s0 l0 mp Er) as (Ha & Hc).
+      split; [exact Ha|]. intros p E. destruct (Hc p E) as (-> & Hcomp). split; [apply Hcomp; assumption | reflexivity]. }
   destruct Hrec as (s0 & l0 & mp & Er & Ha0 & Hc0). rewrite Er in H. clear Er.
   assert (Hk0 : wlog_kept (sto st) s0).
-  { eapply adv_wlog_kept; [|apply Ha0]. intros ws w x. apply (InvW_wlog_entry es st); exact HI. }
+  { eapply adv_wlog_kept; [|apply Ha0]. intros ws w x. apply (InvW_wlog_entry np es st); exact HI. }
   assert (Hp0 : plog s0 = plog_of es) by (destruct Ha0 as (P & _); congruence).
-  assert (Hb0 : btw3 (removelast es) es s0) by (eapply btw3_adv3; eassumption).
+  assert (Hb0 : btw3 np (removelast es) es s0) by (eapply btw3_adv3; eassumption).
   destruct mp as [p|].
   2:{ inversion H; subst. split; [exact Hk0|]. left. cbn. split; [reflexivity|]. split; [|discriminate].
       split; [exact Hp0|]. split; [exact Hw|]. split; [exact Hb0|]. intros p E. discriminate. }
@@ -501,19 +549,20 @@ Proof.
       split; [exact Hp0|]. split; [exact Hw|]. split; [exact Hb0|].
       intros p E. inversion E; subst. split; [exact Hc | reflexivity]. }
   set (e := build_event s0 (scan_of es) tag c) in *.
-  assert (Ho : ok_event es e) by (apply build_ok; assumption).
+  assert (Ho : ok_event es e) by (apply build_ok; [exact Hw | apply Hc | exact Ev]).
   assert (Hw' : wf (es ++ [e])) by (constructor; assumption).
   (* putPLog *)
-  unfold w_plog in H. destruct (issue plan TPLog (op_of (plog_cond tl)) l0) as [fp l1].
-  destruct (wr fp (plog_cond tl) (is_some (nget (plog s0) (nextP (scan_of es))))) as [app okp] eqn:Ewp.
+  unfold w_plog in H. destruct (issue plan TPLog (op_of (plog_cond (k_tl k))) l0) as [fp l1].
+  destruct (wr fp (plog_cond (k_tl k)) (is_some (nget (plog s0) (nextP (scan_of es))))) as [app okp] eqn:Ewp.
   set (s1 := if app then set_plog s0 (nput (plog s0) (nextP (scan_of es)) e) else s0) in H.
   assert (Hs1 : wlog s1 = wlog s0 /\ recs s1 = recs s0 /\ proj s1 = proj s0) by (subst s1; destruct app; repeat split).
   destruct Hs1 as (W1 & R1 & J1).
   assert (Hk1 : wlog_kept (sto st) s1) by (intros ws w x Hg; rewrite W1; apply Hk0; exact Hg).
   assert (Hp1 : app = true -> plog s1 = plog_of (es ++ [e])).
   { intros ->. subst s1. cbn [plog set_plog]. rewrite Hp0, nextP_scan_of. unfold plog_of. apply nput_index_snoc. }
-  assert (Hb1 : btw3 es (es ++ [e]) s1).
-  { destruct Hc as (Cw & Cr & Cj). repeat split; apply btw_of_eq2_l; congruence. }
+  assert (Hb1 : btw3 np es (es ++ [e]) s1).
+  { destruct Hc as (Cw & Cr & Cj). repeat split; [| |intros j Hj; unfold projv; rewrite J1; apply btw_of_eq2_l; apply Cj; exact Hj];
+      apply btw_of_eq2_l; congruence. }
   assert (Hmatch : e_tag e = tag /\ event_matches c e = true) by (split; [reflexivity | apply build_matches]).
   destruct okp; cbn [negb] in H.
   2:{ (* the PLog write reported failure *)
@@ -522,25 +571,25 @@ Proof.
       - right. split; [reflexivity|]. exists e. split; [|split; [apply Hmatch|split; [apply Hmatch|]]].
         + split; [apply Hp1; reflexivity|]. split; [exact Hw'|]. rewrite removelast_last.
           split; [exact Hb1|]. intros p E. discriminate.
-        + unfold reply_fits. cbn. destruct fx; exact I.
-      - left. split; [reflexivity|]. split; [|intros w ids; destruct fx; discriminate].
+        + unfold reply_fits. cbn. destruct (k_fx k); exact I.
+      - left. split; [reflexivity|]. split; [|intros w ids; destruct (k_fx k); discriminate].
         subst s1. split; [exact Hp0|]. split; [exact Hw|]. split; [exact Hb0|]. intros p E. discriminate. }
   apply wr_ok_app in Ewp. subst app. specialize (Hp1 eq_refl).
   (* the store operator *)
-  destruct (store_op tl plan false e s1 l1) as [[s2 l2] oks] eqn:Es.
-  destruct (store_op_sound tl plan false es e s1 l1 Hw Ho Hb1 s2 l2 oks Es) as (Ha2 & Hc2).
+  destruct (store_op k ord plan false e s1 l1) as [[s2 l2] oks] eqn:Es.
+  destruct (store_op_sound k ord np plan false es e s1 l1 Hw Ho Hb1 s2 l2 oks Es) as (Ha2 & Hc2).
   assert (Hk2 : wlog_kept (sto st) s2).
   { intros ws w x Hg. specialize (Hk1 ws w x Hg).
     eapply (adv_wlog_kept (wlog_of (es ++ [e])) s1 s2); [|apply Ha2|exact Hk1].
     intros ws' w' x' Hg'. rewrite W1 in Hg'. destruct Hc as (Cw & _). rewrite Cw in Hg'.
     apply wlog_of_mono; assumption. }
   assert (Hp2 : plog s2 = plog_of (es ++ [e])) by (destruct Ha2 as (P & _); congruence).
-  assert (Hb2 : btw3 es (es ++ [e]) s2) by (eapply btw3_adv3; eassumption).
+  assert (Hb2 : btw3 np es (es ++ [e]) s2) by (eapply btw3_adv3; eassumption).
   split; [destruct oks; inversion H; subst; exact Hk2|]. right.
   destruct oks; cbn [negb] in H; inversion H; subst st' o; clear H; cbn [o_written o_reply];
     (split; [reflexivity|]); exists e; (split; [|split; [apply Hmatch|split; [apply Hmatch|]]]).
   - split; [exact Hp2|]. split; [exact Hw'|]. rewrite removelast_last. split; [exact Hb2|].
-    intros p E. inversion E; subst p. split; [apply Hc2; reflexivity|].
+    intros p E. inversion E; subst p. split; [apply Hc2; auto|].
     rewrite scan_of_snoc, <- nextP_scan_of. apply bump_scan.
   - unfold reply_fits. cbn. split; reflexivity.
   - split; [exact Hp2|]. split; [exact Hw'|]. rewrite removelast_last. split; [exact Hb2|].
@@ -548,11 +597,11 @@ Proof.
   - unfold reply_fits. cbn. exact I.
 Qed.
 
-Lemma process_reply_fx tl tag c plan st st' o :
-  process true tl tag c plan st = (st', o) -> o_reply o <> RNone.
+Lemma process_reply_fx k ord tag c plan st st' o :
+  k_fx k = true -> process k ord tag c plan st = (st', o) -> o_reply o <> RNone.
 Proof.
-  unfold process.
-  destruct (match mem st with Some p => (sto st, [], Some p) | None => recover tl plan (sto st) [] end) as [[s0 l0] mp].
+  intros Hfx. unfold process. rewrite Hfx.
+  destruct (match mem st with Some p => (sto st, [], Some p) | None => recover k ord plan (sto st) [] end) as [[s0 l0] mp].
   destruct mp as [p|]; [|intros H; inversion H; discriminate].
   destruct (valid_cmd s0 c); cbn [negb]; [|intros H; inversion H; discriminate].
   destruct (w_plog _ _ _ _ _ _) as [[s1 l1] [wrt okp]].
@@ -569,22 +618,22 @@ Definition log_fits (e : event) (x : N * command * outcome) : Prop :=
 Lemma wlog_kept_trans s s' s'' : wlog_kept s s' -> wlog_kept s' s'' -> wlog_kept s s''.
 Proof. intros H1 H2 ws w x Hg. apply H2, H1, Hg. Qed.
 
-Lemma run_spec fx tl : forall steps tag st st' outs es,
-  InvW es st -> run fx tl tag steps st = (st', outs) ->
-  exists evs, InvW (es ++ evs) st' /\ wlog_kept (sto st) (sto st')
+Lemma run_spec k ords np : k_early k = true -> ords_ok np ords -> forall steps tag st st' outs es,
+  InvW np es st -> run k ords tag steps st = (st', outs) ->
+  exists evs, InvW np (es ++ evs) st' /\ wlog_kept (sto st) (sto st')
     /\ Forall2 log_fits evs (written_cmds tag steps outs)
     /\ Forall (fun o => forall w ids, o_reply o = ROk w ids -> o_written o = true) outs
-    /\ (fx = true -> Forall (fun o => o_reply o <> RNone) outs).
+    /\ (k_fx k = true -> Forall (fun o => o_reply o <> RNone) outs).
 Proof.
-  induction steps as [|stp r IH]; intros tag st st' outs es HI H; cbn [run] in H.
+  intros He Hords. induction steps as [|stp r IH]; intros tag st st' outs es HI H; cbn [run] in H.
   - inversion H; subst. exists []. rewrite app_nil_r. split; [exact HI|].
     split; [intros ws w x Hg; exact Hg|]. split; [constructor|]. split; [constructor|]. intros _; constructor.
   - destruct stp as [c plan|].
-    + destruct (process fx tl tag c plan st) as [st1 o] eqn:Ep.
-      destruct (run fx tl (tag + 1) r st1) as [st2 os] eqn:Er. inversion H; subst st' outs. clear H.
-      destruct (process_spec fx tl tag c plan st st1 o es HI Ep) as (Hk & Hcase).
-      assert (Hfx : fx = true -> o_reply o <> RNone).
-      { intros ->. eapply process_reply_fx; exact Ep. }
+    + destruct (process k (ords tag) tag c plan st) as [st1 o] eqn:Ep.
+      destruct (run k ords (tag + 1) r st1) as [st2 os] eqn:Er. inversion H; subst st' outs. clear H.
+      destruct (process_spec k (ords tag) np tag c plan st st1 o es He (Hords tag) HI Ep) as (Hk & Hcase).
+      assert (Hfx : k_fx k = true -> o_reply o <> RNone).
+      { intros F. eapply process_reply_fx; [exact F | exact Ep]. }
       destruct Hcase as [(Hwr & HI1 & Hno)|(Hwr & e & HI1 & Ht & Hm & Hf)].
       * destruct (IH (tag + 1) st1 st2 os es HI1 Er) as (evs & HI2 & Hk2 & Hl & Hok & Hn).
         exists evs. split; [exact HI2|]. split; [eapply wlog_kept_trans; eassumption|].
@@ -598,38 +647,38 @@ Proof.
         -- unfold log_fits. repeat split; assumption.
         -- split; [constructor; [intros; exact Hwr | exact Hok]|].
            intros F. constructor; [apply Hfx; exact F | apply Hn; exact F].
-    + destruct (IH tag (mkState (sto st) None) st' outs es (InvW_drop es st HI) H) as (evs & HI2 & Hk2 & Hl & Hok & Hn).
+    + destruct (IH tag (mkState (sto st) None) st' outs es (InvW_drop np es st HI) H) as (evs & HI2 & Hk2 & Hl & Hok & Hn).
       exists evs. split; [exact HI2|]. split; [exact Hk2|]. split; [exact Hl|]. split; assumption.
 Qed.
 
-Lemma run_app fx tl : forall s1 s2 tag st,
-  run fx tl tag (s1 ++ s2) st =
-  let '(st1, o1) := run fx tl tag s1 st in
-  let '(st2, o2) := run fx tl (tag + N.of_nat (length (filter (fun s => match s with SCmd _ _ => true | SRestart => false end) s1))) s2 st1 in
+Lemma run_app k ords : forall s1 s2 tag st,
+  run k ords tag (s1 ++ s2) st =
+  let '(st1, o1) := run k ords tag s1 st in
+  let '(st2, o2) := run k ords (tag + N.of_nat (length (filter (fun s => match s with SCmd _ _ => true | SRestart => false end) s1))) s2 st1 in
   (st2, o1 ++ o2).
 Proof.
   induction s1 as [|stp r IH]; intros s2 tag st; cbn [app run filter length].
-  - rewrite N.add_0_r. destruct (run fx tl tag s2 st); reflexivity.
+  - rewrite N.add_0_r. destruct (run k ords tag s2 st); reflexivity.
   - destruct stp as [c plan|]; cbn [length].
-    + destruct (process fx tl tag c plan st) as [st1 o]. rewrite IH.
-      destruct (run fx tl (tag + 1) r st1) as [st2 os].
+    + destruct (process k (ords tag) tag c plan st) as [st1 o]. rewrite IH.
+      destruct (run k ords (tag + 1) r st1) as [st2 os].
       replace (tag + 1 + N.of_nat (length (filter (fun s => match s with SCmd _ _ => true | SRestart => false end) r)))
         with (tag + N.of_nat (S (length (filter (fun s => match s with SCmd _ _ => true | SRestart => false end) r)))) by lia.
-      destruct (run fx tl _ s2 st2). reflexivity.
+      destruct (run k ords _ s2 st2). reflexivity.
     + apply IH.
 Qed.
 
 (* ---------- complete stores are consistent ---------- *)
 
-Lemma complete_consistent es s :
-  plog s = plog_of es -> wf es -> complete es s -> consistent s.
+Lemma complete_consistent np es s :
+  plog s = plog_of es -> wf es -> complete np es s -> consistent np s.
 Proof.
   intros Hp Hw (Cw & Cr & Cj). unfold consistent. rewrite Hp. unfold plog_of.
   rewrite map_snd_index_from, map_fst_index_from. split; [reflexivity|]. split; [|split; [|split]].
   - intros ws w. rewrite Cw. apply wlog_of_get; exact Hw.
   - apply woffs_of; exact Hw.
   - exact Cr.
-  - intros ws w. rewrite Cj, Cw. apply proj_of_get.
+  - intros j Hj ws w. unfold get3. fold (projv s j). rewrite (Cj j Hj), Cw. apply proj_of_get.
 Qed.
 
 (* ---------- a recovery without faults succeeds ---------- *)
@@ -637,82 +686,107 @@ Qed.
 Definition reapply_unconditional : Prop :=
   c05_reapply_wlog_op = 0 /\ (forall tl, tl_flag c05_rec_reapply_ops tl = false).
 
-Lemma store_op_reapply_ok tl es e s l :
-  reapply_unconditional -> wf es -> ok_event es e -> btw3 es (es ++ [e]) s ->
-  exists s' l', store_op tl [] true e s l = (s', l', true).
+(* without faults every projector is flushed successfully *)
+Lemma w_projs_clean early e : forall ord s l, exists s' l', w_projs early [] ord e s l true = (s', l', true) /\ wlog s' = wlog s.
+Proof.
+  induction ord as [|j r IH]; intros s l; cbn [w_projs].
+  - eexists; eexists; split; reflexivity.
+  - unfold w_proj1, issue. cbn [fault_at wr negb andb].
+    destruct (IH (set_proj s (put3 (proj s) j (e_ws e) (e_woff e) (e_tag e))) (l ++ [(TView, opPutBatch)])) as (s' & l' & E & W).
+    exists s', l'. split; [exact E | exact W].
+Qed.
+
+Lemma store_op_reapply_ok k ord np es e s l :
+  reapply_unconditional -> wf es -> ok_event es e -> btw3 np es (es ++ [e]) s ->
+  exists s' l', store_op k ord [] true e s l = (s', l', true).
 Proof.
   intros (Hwl & Hrc) Hw Ho (_ & Br & _). unfold store_op.
   destruct (results_vals es e (recs s) Ho Br (e_cuds e) (incl_refl _)) as (rs & Hr & _). rewrite Hr.
   unfold recs_each, wlog_cond. rewrite Hrc, Hwl. cbn [N.eqb].
-  unfold w_recs_batch, w_proj, w_wlog, issue. cbn [fault_at wr].
-  destruct rs; cbn [negb andb]; eexists; eexists; reflexivity.
+  assert (Hb : exists s1 l1, w_recs_batch [] (e_ws e) rs s l = (s1, l1, true)).
+  { unfold w_recs_batch, issue. cbn [fault_at wr]. destruct rs; eexists; eexists; reflexivity. }
+  destruct Hb as (s1 & l1 & E1). rewrite E1. cbn [negb].
+  destruct (w_projs_clean (k_early k) e ord s1 l1) as (s2 & l2 & E2 & _). rewrite E2.
+  unfold w_wlog, issue. cbn [fault_at wr andb]. eexists; eexists; reflexivity.
 Qed.
 
-Lemma recover_clean tl es st :
-  reapply_unconditional -> InvW es st ->
-  exists s' l', recover tl [] (sto st) [] = (s', l', Some (scan_of es)) /\ plog s' = plog_of es /\ complete es s'.
+Lemma recover_clean k ord np es st :
+  k_early k = true -> ord_ok np ord ->
+  reapply_unconditional -> InvW np es st ->
+  exists s' l', recover k ord [] (sto st) [] = (s', l', Some (scan_of es)) /\ plog s' = plog_of es /\ complete np es s'.
 Proof.
-  intros Hu (Hp & Hw & Hb & _).
-  destruct (recover tl [] (sto st) []) as [[s' l'] mp] eqn:Er.
-  destruct (recover_sound tl [] (sto st) [] es Hp Hw Hb s' l' mp Er) as ((P & _) & Hc).
+  intros He Hord Hu (Hp & Hw & Hb & _).
+  destruct (recover k ord [] (sto st) []) as [[s' l'] mp] eqn:Er.
+  destruct (recover_sound k ord np [] (sto st) [] es Hp Hw Hb s' l' mp Er) as ((P & _) & Hc).
   assert (Hsome : mp <> None).
   { unfold recover in Er. rewrite Hp in Er. unfold plog_of in Er. rewrite map_snd_index_from in Er.
     destruct (snoc_cases es) as [->|(es' & e & ->)].
     - cbn in Er. inversion Er. discriminate.
     - rewrite last_opt_snoc in Er. rewrite removelast_last in Hb. apply wf_inv in Hw. destruct Hw as [Hw Ho].
-      destruct (store_op_reapply_ok tl es' e (sto st) [] Hu Hw Ho Hb) as (s1 & l1 & E).
+      destruct (store_op_reapply_ok k ord np es' e (sto st) [] Hu Hw Ho Hb) as (s1 & l1 & E).
       fold (plog_of (es' ++ [e])) in Er. rewrite E in Er. inversion Er. discriminate. }
-  destruct mp as [p|]; [|congruence]. destruct (Hc p eq_refl) as (Hcomp & ->).
-  exists s', l'. split; [reflexivity|]. split; [congruence | exact Hcomp].
+  destruct mp as [p|]; [|congruence]. destruct (Hc p eq_refl) as (-> & Hcomp).
+  exists s', l'. split; [reflexivity|]. split; [congruence | apply Hcomp; assumption].
 Qed.
 
 (* ---------- the theorems of Properties/C01.v ---------- *)
 
-Lemma run_reach fx tl steps st outs :
-  run fx tl 1 steps state0 = (st, outs) ->
-  exists es, InvW es st /\ Forall2 log_fits es (written_cmds 1 steps outs)
-    /\ Forall (fun o => forall w ids, o_reply o = ROk w ids -> o_written o = true) outs
-    /\ (fx = true -> Forall (fun o => o_reply o <> RNone) outs).
+Lemma run_reach k ords np steps st outs :
+  k_early k = true -> ords_ok np ords ->
+  run k ords 1 steps state0 = (st, outs) ->
+  exists es, InvW np es st /\ Forall2 log_fits es (written_cmds 1 steps outs)
+    /\ Forall (fun o => forall w ids, o_reply o = ROk w ids -> o_written o = true) outs.
 Proof.
-  intros H. destruct Inv0 as (es0 & HI0).
-  assert (es0 = []) by (rewrite <- (InvW_events es0 state0 HI0); reflexivity). subst es0.
-  destruct (run_spec fx tl steps 1 state0 st outs [] HI0 H) as (evs & HI & _ & Hl & Hok & Hn).
-  exists evs. cbn [app] in HI. split; [exact HI|]. split; [exact Hl|]. split; assumption.
+  intros He Hords H. destruct (Inv0 np) as (es0 & HI0).
+  assert (es0 = []) by (rewrite <- (InvW_events np es0 state0 HI0); reflexivity). subst es0.
+  destruct (run_spec k ords np He Hords steps 1 state0 st outs [] HI0 H) as (evs & HI & _ & Hl & Hok & Hn).
+  exists evs. cbn [app] in HI. split; [exact HI|]. split; [exact Hl|]. exact Hok.
 Qed.
 
-Theorem recovery_restores_consistency_proved fx tl steps st outs :
+Theorem recovery_restores_consistency_proved k ords np steps st outs :
+  k_early k = true -> ords_ok np ords ->
   reapply_unconditional ->
-  run fx tl 1 steps state0 = (st, outs) ->
-  exists s' l' p, recover tl [] (sto st) [] = (s', l', Some p)
-    /\ plog s' = plog (sto st) /\ consistent s'.
+  run k ords 1 steps state0 = (st, outs) ->
+  forall ord, ord_ok np ord ->
+  exists s' l' p, recover k ord [] (sto st) [] = (s', l', Some p)
+    /\ plog s' = plog (sto st) /\ consistent np s'.
 Proof.
-  intros Hu H. destruct (run_reach fx tl steps st outs H) as (es & HI & _).
-  destruct (recover_clean tl es st Hu HI) as (s' & l' & Er & Hp & Hc).
+  intros He Hords Hu H ord Hord. destruct (run_reach k ords np steps st outs He Hords H) as (es & HI & _).
+  destruct (recover_clean k ord np es st He Hord Hu HI) as (s' & l' & Er & Hp & Hc).
   exists s', l', (scan_of es). split; [exact Er|]. pose proof HI as (Hp0 & Hw & _).
   split; [congruence|]. eapply complete_consistent; eassumption.
 Qed.
 
-Theorem serving_state_consistent_proved fx tl steps st outs :
-  run fx tl 1 steps state0 = (st, outs) -> mem st <> None -> consistent (sto st).
+Theorem serving_state_consistent_proved k ords np steps st outs :
+  k_early k = true -> ords_ok np ords ->
+  run k ords 1 steps state0 = (st, outs) -> mem st <> None -> consistent np (sto st).
 Proof.
-  intros H Hm. destruct (run_reach fx tl steps st outs H) as (es & (Hp & Hw & _ & Hc) & _).
+  intros He Hords H Hm. destruct (run_reach k ords np steps st outs He Hords H) as (es & (Hp & Hw & _ & Hc) & _).
   destruct (mem st) as [p|]; [|congruence]. destruct (Hc p eq_refl) as (Hcomp & _).
   eapply complete_consistent; eassumption.
 Qed.
 
-Theorem log_is_the_written_commands_proved fx tl steps st outs :
-  run fx tl 1 steps state0 = (st, outs) ->
+Theorem log_is_the_written_commands_proved k ords np steps st outs :
+  k_early k = true -> ords_ok np ords ->
+  run k ords 1 steps state0 = (st, outs) ->
   Forall2 log_fits (events st) (written_cmds 1 steps outs)
   /\ Forall (fun o => forall w ids, o_reply o = ROk w ids -> o_written o = true) outs.
 Proof.
-  intros H. destruct (run_reach fx tl steps st outs H) as (es & HI & Hl & Hok & _).
-  rewrite (InvW_events es st HI). split; assumption.
+  intros He Hords H. destruct (run_reach k ords np steps st outs He Hords H) as (es & HI & Hl & Hok).
+  rewrite (InvW_events np es st HI). split; assumption.
 Qed.
 
-Theorem every_command_answered_proved tl steps st outs :
-  run true tl 1 steps state0 = (st, outs) -> Forall (fun o => o_reply o <> RNone) outs.
+(* exactly one reply: needs nothing but putPLog handing the error on *)
+Theorem every_command_answered_proved k ords : k_fx k = true -> forall steps tag st st' outs,
+  run k ords tag steps st = (st', outs) -> Forall (fun o => o_reply o <> RNone) outs.
 Proof.
-  intros H. destruct (run_reach true tl steps st outs H) as (es & _ & _ & _ & Hn). apply Hn; reflexivity.
+  intros Hfx. induction steps as [|stp r IH]; intros tag st st' outs H; cbn [run] in H.
+  - inversion H; constructor.
+  - destruct stp as [c plan|].
+    + destruct (process k (ords tag) tag c plan st) as [st1 o] eqn:Ep.
+      destruct (run k ords (tag + 1) r st1) as [st2 os] eqn:Er. inversion H; subst.
+      constructor; [eapply process_reply_fx; eassumption | eapply IH; exact Er].
+    + eapply IH; exact H.
 Qed.
 
 (* without a fault at the PLog write nobody dies, whatever putPLog does with an error *)
@@ -723,60 +797,62 @@ Proof.
   apply nth_error_None. lia.
 Qed.
 
-Lemma process_reply_noplog fx tl tag c plan st st' o es :
-  InvW es st -> (forall k, fault_at plan TPLog k = None) ->
-  process fx tl tag c plan st = (st', o) -> o_reply o <> RNone.
+Lemma process_reply_noplog k ord np tag c plan st st' o es :
+  InvW np es st -> (forall i, fault_at plan TPLog i = None) ->
+  process k ord tag c plan st = (st', o) -> o_reply o <> RNone.
 Proof.
   intros HI Hnf. pose proof HI as (Hp & Hw & Hb & Hm). unfold process.
   assert (Hrec : forall s0 l0 p,
-    (match mem st with Some p => (sto st, [], Some p) | None => recover tl plan (sto st) [] end) = (s0, l0, Some p) ->
+    (match mem st with Some p => (sto st, [], Some p) | None => recover k ord plan (sto st) [] end) = (s0, l0, Some p) ->
     plog s0 = plog_of es /\ p = scan_of es).
   { intros s0 l0 p E. destruct (mem st) as [q|] eqn:Em.
     - inversion E; subst. split; [exact Hp | apply Hm; reflexivity].
-    - destruct (recover_sound tl plan (sto st) [] es Hp Hw Hb s0 l0 (Some p) E) as ((P & _) & Hc).
+    - destruct (recover_sound k ord np plan (sto st) [] es Hp Hw Hb s0 l0 (Some p) E) as ((P & _) & Hc).
       split; [congruence | apply Hc; reflexivity]. }
-  destruct (match mem st with Some p => (sto st, [], Some p) | None => recover tl plan (sto st) [] end) as [[s0 l0] mp].
+  destruct (match mem st with Some p => (sto st, [], Some p) | None => recover k ord plan (sto st) [] end) as [[s0 l0] mp].
   destruct mp as [p|]; [|intros H; inversion H; discriminate].
   destruct (Hrec s0 l0 p eq_refl) as (Hp0 & ->).
   destruct (valid_cmd s0 c); cbn [negb]; [|intros H; inversion H; discriminate].
   unfold w_plog, issue. rewrite Hnf, Hp0, plog_slot_free. cbn [is_some wr].
   rewrite andb_false_r. cbn [negb].
-  destruct (store_op _ _ _ _ _ _) as [[s2 l2] oks].
+  destruct (store_op _ _ _ _ _ _ _) as [[s2 l2] oks].
   destruct oks; cbn [negb]; intros H; inversion H; discriminate.
 Qed.
 
-Lemma run_noplog fx tl : forall steps tag st st' outs es,
-  InvW es st -> no_plog_fault steps -> run fx tl tag steps st = (st', outs) ->
+Lemma run_noplog k ords np : k_early k = true -> ords_ok np ords -> forall steps tag st st' outs es,
+  InvW np es st -> no_plog_fault steps -> run k ords tag steps st = (st', outs) ->
   Forall (fun o => o_reply o <> RNone) outs.
 Proof.
-  induction steps as [|stp r IH]; intros tag st st' outs es HI Hnf H; cbn [run] in H.
+  intros He Hords. induction steps as [|stp r IH]; intros tag st st' outs es HI Hnf H; cbn [run] in H.
   - inversion H; constructor.
   - assert (Hnf' : no_plog_fault r) by (intros c plan Hin; apply (Hnf c plan); right; exact Hin).
     destruct stp as [c plan|].
-    + destruct (process fx tl tag c plan st) as [st1 o] eqn:Ep.
-      destruct (run fx tl (tag + 1) r st1) as [st2 os] eqn:Er. inversion H; subst st' outs. clear H.
+    + destruct (process k (ords tag) tag c plan st) as [st1 o] eqn:Ep.
+      destruct (run k ords (tag + 1) r st1) as [st2 os] eqn:Er. inversion H; subst st' outs. clear H.
       constructor.
       * eapply process_reply_noplog; [exact HI | apply (Hnf c plan); left; reflexivity | exact Ep].
-      * destruct (process_spec fx tl tag c plan st st1 o es HI Ep) as (_ & [(_ & HI1 & _)|(_ & e & HI1 & _)]);
+      * destruct (process_spec k (ords tag) np tag c plan st st1 o es He (Hords tag) HI Ep) as (_ & [(_ & HI1 & _)|(_ & e & HI1 & _)]);
           eapply IH; eassumption.
     + eapply IH; [apply InvW_drop; exact HI | exact Hnf' | exact H].
 Qed.
 
-Theorem every_command_answered_partial_proved fx tl steps st outs :
-  no_plog_fault steps -> run fx tl 1 steps state0 = (st, outs) -> Forall (fun o => o_reply o <> RNone) outs.
-Proof. intros Hnf H. destruct Inv0 as (es0 & HI0). eapply run_noplog; eassumption. Qed.
+Theorem every_command_answered_partial_proved k ords np steps st outs :
+  k_early k = true -> ords_ok np ords ->
+  no_plog_fault steps -> run k ords 1 steps state0 = (st, outs) -> Forall (fun o => o_reply o <> RNone) outs.
+Proof. intros He Hords Hnf H. destruct (Inv0 np) as (es0 & HI0). eapply run_noplog; eassumption. Qed.
 
 (* offsets are never reused: what a log holds at an offset it holds for ever *)
-Theorem log_entries_never_change_proved fx tl steps1 steps2 st1 outs1 st2 outs2 :
-  run fx tl 1 steps1 state0 = (st1, outs1) ->
-  run fx tl 1 (steps1 ++ steps2) state0 = (st2, outs2) ->
+Theorem log_entries_never_change_proved k ords np steps1 steps2 st1 outs1 st2 outs2 :
+  k_early k = true -> ords_ok np ords ->
+  run k ords 1 steps1 state0 = (st1, outs1) ->
+  run k ords 1 (steps1 ++ steps2) state0 = (st2, outs2) ->
   (forall o e, nget (plog (sto st1)) o = Some e -> nget (plog (sto st2)) o = Some e)
   /\ (forall ws w e, get2 (wlog (sto st1)) ws w = Some e -> get2 (wlog (sto st2)) ws w = Some e).
 Proof.
-  intros H1 H2. rewrite run_app, H1 in H2.
-  destruct (run fx tl _ steps2 st1) as [st2' o2] eqn:E2. inversion H2; subst st2' outs2. clear H2.
-  destruct (run_reach fx tl steps1 st1 outs1 H1) as (es & HI & _).
-  destruct (run_spec fx tl steps2 _ st1 st2 o2 es HI E2) as (evs & HI2 & Hk & _).
+  intros He Hords H1 H2. rewrite run_app, H1 in H2.
+  destruct (run k ords _ steps2 st1) as [st2' o2] eqn:E2. inversion H2; subst st2' outs2. clear H2.
+  destruct (run_reach k ords np steps1 st1 outs1 He Hords H1) as (es & HI & _).
+  destruct (run_spec k ords np He Hords steps2 _ st1 st2 o2 es HI E2) as (evs & HI2 & Hk & _).
   split; [|exact Hk].
   destruct HI as (Hp & _). destruct HI2 as (Hp2 & _). rewrite Hp, Hp2. unfold plog_of.
   intros o e. rewrite !nget_index_from. destruct (o <? 1); [discriminate|].
@@ -811,20 +887,19 @@ Proof.
     + right. intros E. apply Hnin. cbn [rid fst] in *. rewrite E. apply (in_map rid). exact Hin.
 Qed.
 
-Lemma store_op_clean tl es e s l :
-  wf es -> ok_event es e -> complete es s ->
-  exists s' l', store_op tl [] false e s l = (s', l', true).
+Lemma store_op_clean k ord es e s l :
+  wf es -> ok_event es e -> eq2 (wlog s) (wlog_of es) -> eq2 (recs s) (recs_of es) ->
+  exists s' l', store_op k ord [] false e s l = (s', l', true).
 Proof.
-  intros Hw Ho Hc. pose proof (complete_btw3 es (es ++ [e]) s) as _.
-  assert (Hb : btw3 es (es ++ [e]) s).
-  { destruct Hc as (Cw & Cr & Cj). repeat split; apply btw_of_eq2_l; assumption. }
-  pose proof Hb as (_ & Br & _). unfold store_op.
+  intros Hw Ho Cw Cr.
+  assert (Br : btw (recs_of es) (recs_of (es ++ [e])) (recs s)) by (apply btw_of_eq2_l; exact Cr).
+  unfold store_op.
   destruct (results_vals es e (recs s) Ho Br (e_cuds e) (incl_refl _)) as (rs & Hr & Hv & Hm). rewrite Hr.
   pose proof (results_shape _ _ _ _ Hr) as Hsh.
   assert (Hrecs : exists s1 l1,
-    (if recs_each tl false then w_recs_each [] (e_ws e) rs s l else w_recs_batch [] (e_ws e) rs s l) = (s1, l1, true)
+    (if recs_each (k_tl k) false then w_recs_each [] (e_ws e) rs s l else w_recs_batch [] (e_ws e) rs s l) = (s1, l1, true)
     /\ wlog s1 = wlog s).
-  { destruct (recs_each tl false).
+  { destruct (recs_each (k_tl k) false).
     - destruct (each_clean (e_ws e) rs s l) as (s1 & l1 & E).
       + rewrite Hm. apply Ho.
       + intros x Hin Hn.
@@ -833,16 +908,17 @@ Proof.
         apply in_map_iff in Hx. destruct Hx as (c & Hc' & Hcin). inversion Hc' as [[Hid Hnew]].
         destruct Ho as (_ & _ & Hcs). specialize (Hcs c Hcin). rewrite Hn in Hnew.
         destruct c; cbn in Hnew; try discriminate. cbn [cud_id] in Hid. subst id.
-        destruct Hc as (_ & Cr & _). rewrite Cr.
+        rewrite Cr.
         destruct (get2 (recs_of es) (e_ws e) (rid x)) eqn:G; [|exact G].
         assert (Hlt : rid x < nextID (ws_of (scan_of es) (e_ws e))) by (apply (recs_bound es Hw); congruence).
         lia.
       + exists s1, l1. split; [exact E|]. eapply w_recs_each_adv in E; [|exact Hv]. apply E.
     - unfold w_recs_batch, issue. cbn [fault_at wr]. destruct rs; eexists; eexists; split; reflexivity. }
   destruct Hrecs as (s1 & l1 & E1 & W1). rewrite E1. cbn [negb].
-  unfold w_proj, w_wlog, issue. cbn [fault_at wr andb]. cbn [set_proj wlog].
-  rewrite W1. destruct Hc as (Cw & _). rewrite Cw, (wlog_slot_free es e Hw Ho). cbn [is_some].
-  rewrite andb_false_r. eexists; eexists; reflexivity.
+  destruct (w_projs_clean (k_early k) e ord s1 l1) as (s2 & l2 & E2 & W2). rewrite E2.
+  unfold w_wlog, issue. cbn [fault_at wr].
+  rewrite W2, W1, Cw, (wlog_slot_free es e Hw Ho). cbn [is_some].
+  rewrite andb_false_r. cbn [andb]. eexists; eexists; reflexivity.
 Qed.
 
 Lemma insert_only_valid s c : insert_only c = true -> valid_cmd s c = true.
@@ -854,42 +930,44 @@ Proof.
   rewrite H, H2, H0, (Hg _ H1). reflexivity.
 Qed.
 
-Lemma process_clean fx tl tag c st st' o es :
-  reapply_unconditional -> InvW es st -> insert_only c = true ->
-  process fx tl tag c [] st = (st', o) ->
+Lemma process_clean k ord np tag c st st' o es :
+  k_early k = true -> ord_ok np ord ->
+  reapply_unconditional -> InvW np es st -> insert_only c = true ->
+  process k ord tag c [] st = (st', o) ->
   (exists w ids, o_reply o = ROk w ids) /\ mem st' <> None.
 Proof.
-  intros Hu HI Hins. pose proof HI as (Hp & Hw & Hb & Hm). unfold process.
+  intros He Hord Hu HI Hins. pose proof HI as (Hp & Hw & Hb & Hm). unfold process.
   assert (Hrec : exists s0 l0,
-    (match mem st with Some p => (sto st, [], Some p) | None => recover tl [] (sto st) [] end) = (s0, l0, Some (scan_of es))
-    /\ plog s0 = plog_of es /\ complete es s0).
+    (match mem st with Some p => (sto st, [], Some p) | None => recover k ord [] (sto st) [] end) = (s0, l0, Some (scan_of es))
+    /\ plog s0 = plog_of es /\ complete np es s0).
   { destruct (mem st) as [p|] eqn:Em.
     - destruct (Hm p eq_refl) as (Hc & ->). exists (sto st), []. repeat split; try assumption; apply Hc.
-    - destruct (recover_clean tl es st Hu HI) as (s' & l' & E & P & C). exists s', l'. repeat split; try assumption; apply C. }
+    - destruct (recover_clean k ord np es st He Hord Hu HI) as (s' & l' & E & P & C). exists s', l'. repeat split; try assumption; apply C. }
   destruct Hrec as (s0 & l0 & E & Hp0 & Hc). rewrite E.
   rewrite (insert_only_valid s0 c Hins). cbn [negb].
   set (e := build_event s0 (scan_of es) tag c).
-  assert (Ho : ok_event es e) by (apply build_ok; [exact Hw | exact Hc | apply insert_only_valid; exact Hins]).
+  assert (Ho : ok_event es e) by (apply build_ok; [exact Hw | apply Hc | apply insert_only_valid; exact Hins]).
   unfold w_plog, issue. cbn [fault_at]. rewrite Hp0, plog_slot_free. cbn [is_some wr].
   rewrite andb_false_r. cbn [negb].
-  destruct (store_op_clean tl es e (set_plog s0 (nput (plog_of es) (nextP (scan_of es)) e)) (l0 ++ [(TPLog, op_of (plog_cond tl))]) Hw Ho) as (s2 & l2 & Es).
-  { destruct Hc as (Cw & Cr & Cj). repeat split; assumption. }
+  destruct (store_op_clean k ord es e (set_plog s0 (nput (plog_of es) (nextP (scan_of es)) e)) (l0 ++ [(TPLog, op_of (plog_cond (k_tl k)))]) Hw Ho) as (s2 & l2 & Es);
+    [apply Hc | apply Hc |].
   rewrite Es. cbn [negb]. intros H. inversion H; subst. cbn. split; [eexists; eexists; reflexivity | discriminate].
 Qed.
 
-Theorem clean_command_succeeds_proved fx tl steps c st outs :
+Theorem clean_command_succeeds_proved k ords np steps c st outs :
+  k_early k = true -> ords_ok np ords ->
   reapply_unconditional -> insert_only c = true ->
-  run fx tl 1 (steps ++ [SCmd c []]) state0 = (st, outs) ->
-  (exists w ids, option_map o_reply (last_opt outs) = Some (ROk w ids)) /\ consistent (sto st).
+  run k ords 1 (steps ++ [SCmd c []]) state0 = (st, outs) ->
+  (exists w ids, option_map o_reply (last_opt outs) = Some (ROk w ids)) /\ consistent np (sto st).
 Proof.
-  intros Hu Hins H. pose proof H as H'. rewrite run_app in H.
-  destruct (run fx tl 1 steps state0) as [st1 o1] eqn:E1.
-  destruct (run_reach fx tl steps st1 o1 E1) as (es & HI & _).
-  cbn [run] in H. destruct (process fx tl _ c [] st1) as [st2 o] eqn:Ep. inversion H; subst st outs.
-  destruct (process_clean fx tl _ c st1 st2 o es Hu HI Hins Ep) as ((w & ids & Hr) & Hm).
+  intros He Hords Hu Hins H. pose proof H as H'. rewrite run_app in H.
+  destruct (run k ords 1 steps state0) as [st1 o1] eqn:E1.
+  destruct (run_reach k ords np steps st1 o1 He Hords E1) as (es & HI & _).
+  cbn [run] in H. destruct (process k (ords _) _ c [] st1) as [st2 o] eqn:Ep. inversion H; subst st outs.
+  destruct (process_clean k (ords _) np _ c st1 st2 o es He (Hords _) Hu HI Hins Ep) as ((w & ids & Hr) & Hm).
   split.
   - exists w, ids. rewrite last_opt_snoc. cbn. rewrite Hr. reflexivity.
-  - eapply serving_state_consistent_proved; [exact H' | exact Hm].
+  - eapply serving_state_consistent_proved; [exact He | exact Hords | exact H' | exact Hm].
 Qed.
 
 (* ---------- the rows of the log: updates address existing records and keep sys.IsActive ---------- *)
@@ -914,10 +992,11 @@ Proof.
   - rewrite <- recs_of_snoc. apply IH. exact H.
 Qed.
 
-Theorem log_rows_well_formed_proved fx tl steps st outs :
-  run fx tl 1 steps state0 = (st, outs) -> acts_ok [] (events st) = true.
+Theorem log_rows_well_formed_proved k ords np steps st outs :
+  k_early k = true -> ords_ok np ords ->
+  run k ords 1 steps state0 = (st, outs) -> acts_ok [] (events st) = true.
 Proof.
-  intros H. destruct (run_reach fx tl steps st outs H) as (es & HI & _).
-  rewrite (InvW_events es st HI). destruct HI as (_ & Hw & _).
+  intros He Hords H. destruct (run_reach k ords np steps st outs He Hords H) as (es & HI & _).
+  rewrite (InvW_events np es st HI). destruct HI as (_ & Hw & _).
   apply (acts_ok_wf es []). exact Hw.
 Qed.
